@@ -87,6 +87,9 @@ func parseModEntry(m string) *ModSpec {
 		}
 	case strings.HasPrefix(m, "*"):
 		ms.Kind, ms.Expr = "deref", m[1:]
+	case strings.HasSuffix(m, ".*"):
+		// every field of the object behind a pointer or interface value
+		ms.Kind, ms.Expr = "object", strings.TrimSuffix(m, ".*")
 	case strings.HasSuffix(m, "[*]"):
 		ms.Kind, ms.Expr = "elems", strings.TrimSuffix(m, "[*]")
 	case strings.Contains(m, "."):
